@@ -676,7 +676,7 @@ func vfWriteTree(root string, specs []vfFileSpec, r *vfRand) error {
 }
 
 var vfSizes = []int{0, 1, 511, 512, 513, 1023, 1024, 10239, 10240, 10241, 128*1024 - 1, 128 * 1024, 128*1024 + 1, 384 * 1024, 700 * 1024}
-var vfNames = []string{"a.bin", "with space.txt", "中文文件.dat", "emoji😀.bin", "-dash", ".hidden", "UPPER.TXT", "tilde~name", "x"}
+var vfNames = []string{"a.bin", "with space.txt", "中文文件.dat", "emoji😀.bin", "-dash", ".hidden", "UPPER.TXT", "tilde~name", "x", "back\\slash.txt", "two..dots", "trailing\\", "quote\"name", "semi;colon&amp"}
 
 // vfGenTree draws a source tree: a list of top-level paths and the specs below them.
 func vfGenTree(r *vfRand, directory bool, maxSize int, maxFiles int) (tops []string, specs []vfFileSpec) {
